@@ -1,4 +1,178 @@
-/- oracle_c05 — placeholder driver (replaced when the C05 model is added). -/
+/-
+  oracle_c05 — line-protocol driver for the C05 models (Target, Retarget, BlockCheck).
+  Stateful: `node` adds a BlockTreeNode to an in-memory tree, later requests name nodes by index.
+  Requests (numbers decimal, byte strings hex, "-" = empty):
+    setc <u32>                               -> <int>
+    getc <int>                               -> <u32>
+    pow <hash32 hex> <bits>                  -> 0|1
+    core <u32>                               -> <negative 0|1> <overflow 0|1>
+    reset                                    -> ok
+    node <parent idx|-1> <height> <ts> <bits> -> <idx>
+    gnwr <idx> <ts> <testnet> <testnet4> <maxbits> <maxvalue>   -> ok <u32> | panic
+    mtp <idx>                                -> ok <n> | panic
+    u2s <n>                                  -> <hex>
+    merkle <h,h,…|_>                          -> ok <root> <mutated> | panic
+    final <lock> <height> <time> <seq,seq,…|_> -> 0|1
+    flags <height> <time> <bip34> <bip65> <bip66> <csv> <segwit> <taproot> -> <n>
+    weight <nowit:size,…|_>                  -> <n>
+    pre <rawLen> <ver> <hash32> <bits> <time> <now> <known n|g|d> <parent idx|-1> <parentIsLast> <lastHeight>
+        <testnet> <testnet4> <maxbits> <maxvalue> <bip34> <bip65> <bip66>
+                                             -> <dos> <maybelater> <code> <height> <mtp> | panic
+    post <rawLen> <preParsed> <buildOk> <trusted> <height> <mtp> <time> <merkleroot>
+         <bip34> <bip65> <bip66> <csv> <segwit> <taproot> <tx>*
+                                             -> <code> <flags> | panic
+      tx = txid,wtxid,lock,nowit,size,ins,in0script,outs,segwit   (see parseTx)
+-/
+import GocoinV.Model.BlockCheck
+import GocoinV.Base.Sha256
 import GocoinV.Base.Proto
-open GocoinV
-def main : IO Unit := Proto.serve () (fun _ _ => ((), "bad-op"))
+open GocoinV GocoinV.Target GocoinV.Retarget GocoinV.BlockCheck
+
+structure St where
+  nodes : Array (Node × Int) := #[]
+
+def chainOf (s : St) : Nat → Int → List Node
+  | 0, _ => []
+  | fuel+1, idx =>
+    if idx < 0 then [] else
+    match s.nodes[idx.toNat]? with
+    | none => []
+    | some (n, p) => n :: chainOf s fuel p
+
+def St.chain (s : St) (idx : Int) : List Node := chainOf s (s.nodes.size + 1) idx
+
+def b01 (s : String) : Option Bool := if s == "1" then some true else if s == "0" then some false else none
+
+def hexItem (s : String) : Option Bytes :=
+  if s == "_" || s == "e" || s == "-" then some [] else Hex.decodeChars s.toList
+
+def listOf {α} (s : String) (sep : String) (f : String → Option α) : Option (List α) :=
+  if s == "_" then some [] else (s.splitOn sep).mapM f
+
+def parseIn (s : String) : Option TxIn :=
+  match s.splitOn ":" with
+  | [n, q, l] => do
+    let n ← b01 n
+    let q ← q.toNat?
+    let l ← l.toNat?
+    pure { null := n, seq := q, scriptLen := l }
+  | _ => none
+
+def parseSegwit (s : String) : Option (Option (List (List Bytes))) :=
+  if s == "nil" then some none
+  else if s.startsWith "w" then
+    let rest := (s.drop 1).toString
+    if rest == "" then some (some [])
+    else do
+      let stacks ← (rest.splitOn ";").mapM (fun st =>
+        if st == "" then some [] else (st.splitOn ".").mapM hexItem)
+      pure (some stacks)
+  else none
+
+def parseOuts (s : String) : Option (List Bytes) :=
+  if s.startsWith "#" then ((s.drop 1).toString.toNat?).map (fun n => List.replicate n [])
+  else listOf s ";" hexItem
+
+def parseTx (s : String) : Option Tx :=
+  match s.splitOn "," with
+  | [txid, wtxid, lock, nowit, size, ins, in0, outs, sw] => do
+    let txid ← hexItem txid
+    let wtxid ← hexItem wtxid
+    let lock ← lock.toNat?
+    let nowit ← nowit.toNat?
+    let size ← size.toNat?
+    let ins ← listOf ins ";" parseIn
+    let in0 ← hexItem in0
+    let outs ← parseOuts outs
+    let sw ← parseSegwit sw
+    pure { ins := ins, in0Script := in0, outs := outs, segwit := sw, txid := txid, wtxid := wtxid,
+           lockTime := lock, noWitSize := nowit, size := size }
+  | _ => none
+
+def parseCons (a b c d e f : String) : Option Consensus := do
+  pure { bip34Height := ← a.toNat?, bip65Height := ← b.toNat?, bip66Height := ← c.toNat?,
+         enforceCSV := ← d.toNat?, enforceSegwit := ← e.toNat?, enforceTaproot := ← f.toNat? }
+
+def step (s : St) (toks : List String) : St × String :=
+  let bad := (s, "bad-op")
+  let reply (o : Option String) : St × String := match o with | some r => (s, r) | none => bad
+  match toks with
+  | ["setc", c] => reply do
+      let c ← c.toNat?
+      if c ≥ 2^32 then none else pure s!"{setCompact c}"
+  | ["getc", b] => reply do
+      let b ← b.toInt?
+      pure s!"{getCompact b}"
+  | ["pow", h, bits] => reply do
+      let h ← Hex.decode h
+      let bits ← bits.toNat?
+      if h.length ≠ 32 then none else pure (Proto.boolStr (checkProofOfWork (leVal h) bits))
+  | ["core", c] => reply do
+      let c ← c.toNat?
+      pure s!"{Proto.boolStr (coreNegative c)} {Proto.boolStr (coreOverflow c)}"
+  | ["reset"] => ({}, "ok")
+  | ["node", p, h, t, b] =>
+    match p.toInt?, h.toNat?, t.toNat?, b.toNat? with
+    | some p, some h, some t, some b =>
+      if p ≥ (s.nodes.size : Int) then bad
+      else ({ nodes := s.nodes.push ({ height := h, ts := t, bits := b }, p) }, s!"{s.nodes.size}")
+    | _, _, _, _ => bad
+  | ["gnwr", idx, ts, tn, tn4, mb, mv] => reply do
+      let idx ← idx.toInt?
+      let ts ← ts.toNat?
+      let p : Params := { maxPowBits := ← mb.toNat?, maxPowValue := ← mv.toInt?, testnet := ← b01 tn, testnet4 := ← b01 tn4 }
+      match getNextWorkRequired p (s.chain idx) ts with
+      | some r => pure s!"ok {r}"
+      | none => pure "panic"
+  | ["mtp", idx] => reply do
+      let idx ← idx.toInt?
+      match getMedianTimePast (s.chain idx) with
+      | some r => pure s!"ok {r}"
+      | none => pure "panic"
+  | ["u2s", n] => reply do
+      let n ← n.toNat?
+      if n ≥ 2^32 then none else pure (Hex.encode (uintToScript n))
+  | ["merkle", l] => reply do
+      let l ← listOf l "," hexItem
+      match calcMerkle sha256d l with
+      | some (r, m) => pure s!"ok {Hex.encode r} {Proto.boolStr m}"
+      | none => pure "panic"
+  | ["final", lock, height, time, seqs] => reply do
+      let seqs ← listOf seqs "," String.toNat?
+      pure (Proto.boolStr (isFinal (← lock.toNat?) seqs (← height.toNat?) (← time.toNat?)))
+  | ["flags", h, t, a, b, c, d, e, f] => reply do
+      let cons ← parseCons a b c d e f
+      pure s!"{getBlockFlags cons (← h.toNat?) (← t.toNat?)}"
+  | ["weight", l] => reply do
+      let l ← listOf l "," (fun x => match x.splitOn ":" with
+        | [a, b] => do pure ({ ins := [], in0Script := [], outs := [], segwit := none, txid := [], wtxid := [],
+                               lockTime := 0, noWitSize := ← a.toNat?, size := ← b.toNat? } : Tx)
+        | _ => none)
+      pure s!"{blockWeight l}"
+  | ["pre", rawLen, ver, hash, bits, time, now, known, pidx, pil, lastH, tn, tn4, mb, mv, b34, b65, b66] => reply do
+      let hash ← Hex.decode hash
+      if hash.length ≠ 32 then none
+      let known ← (if known == "n" then some none else if known == "g" then some (some true)
+                   else if known == "d" then some (some false) else none)
+      let pidx ← pidx.toInt?
+      let p : Params := { maxPowBits := ← mb.toNat?, maxPowValue := ← mv.toInt?, testnet := ← b01 tn, testnet4 := ← b01 tn4 }
+      let cons ← parseCons b34 b65 b66 "0" "0" "0"
+      let i : PreIn := { rawLen := ← rawLen.toNat?, ver := ← ver.toNat?, hash := leVal hash, bits := ← bits.toNat?,
+                         time := ← time.toNat?, now := ← now.toInt?, known := known,
+                         parent := if pidx < 0 then none else some (s.chain pidx),
+                         parentIsLast := ← b01 pil, lastHeight := ← lastH.toNat? }
+      match preCheckBlock p cons i with
+      | none => pure "panic"
+      | some o => pure s!"{Proto.boolStr o.dos} {Proto.boolStr o.maybelater} {o.err.code} {o.height} {o.mtp}"
+  | "post" :: rawLen :: pp :: bo :: tr :: height :: mtp :: time :: root :: b34 :: b65 :: b66 :: csv :: sw :: tap :: txs => reply do
+      let cons ← parseCons b34 b65 b66 csv sw tap
+      let txs ← txs.mapM parseTx
+      let i : PostIn := { rawLen := ← rawLen.toNat?, preParsed := ← b01 pp, buildOk := ← b01 bo, trusted := ← b01 tr,
+                          height := ← height.toNat?, mtp := ← mtp.toNat?, time := ← time.toNat?,
+                          merkleRoot := ← Hex.decode root, txs := txs }
+      match postCheckBlock sha256d cons i with
+      | none => pure "panic"
+      | some (e, f) => pure s!"{e.code} {f}"
+  | _ => bad
+
+def main : IO Unit := Proto.serve ({} : St) step
